@@ -1,8 +1,6 @@
 import typing as tp
 from collections.abc import KeysView
-import operator as operator_mod
 from itertools import zip_longest
-from functools import reduce
 from copy import deepcopy
 
 import numpy as np
@@ -254,11 +252,11 @@ class LocMap:
             if is_array and key.dtype.kind == DTYPE_DATETIME_KIND:
                 if labels.dtype != key.dtype:
                     labels_ref = labels.astype(key.dtype)
-                    # let Boolean key advance to next branch
-                    key = reduce(operator_mod.or_,
-                            (labels_ref == k for k in key),
-                            np.full(len(labels), False), # an empty key selects nothing
-                            )
+                    # the positions of the labels each key covers, in the order of the keys (a Boolean selection would return them in the order of the labels, pairing a reindexed container with the wrong labels)
+                    key_positions = [p for k in key for p in np.flatnonzero(labels_ref == k).tolist()]
+                    if offset_apply:
+                        return [p + offset for p in key_positions] #type: ignore
+                    return key_positions
 
             if is_array and key.dtype == DTYPE_BOOL:
                 if offset_apply:
